@@ -158,7 +158,9 @@ pub fn sites(tier: Tier) -> Vec<Site> {
             for (fam, s) in textgen::strings(t.width) {
                 if s.contains('\0') || s.contains('^') { continue; }
                 let enc = if t.raw { s.as_bytes().len() } else { codepages::to_lossy_bytes(&s).len() };
-                let fits = if t.var { enc < t.width } else { enc <= t.width };
+                // MST / MSX / MSL are C strings for LFS: the last byte of the field is the terminator
+                let must_terminate = matches!(t.kind, "MST" | "MSX" | "MSL");
+                let fits = if t.var || must_terminate { enc < t.width } else { enc <= t.width };
                 if !fits { continue; }
                 if t.raw && !s.is_ascii() { continue; }
                 cases.push((ti, fam, s));
